@@ -401,7 +401,8 @@ Inductive op :=
 | OSetNext (v : Z)
 | ORace (l : list op)           (* the listed simple operations issued concurrently *)
 | ORaceRel (c : Z) (l : list op) (* ... concurrently with releasing c's parked reader *)
-| ORealTicker (k : Z).          (* scripted scenario run with the REAL heartbeat ticker, see rt_script *)
+| ORealTicker (k : Z)           (* scripted scenario run with the REAL heartbeat ticker, see rt_script *)
+| OTcp (v k : Z).               (* scripted scenario over a REAL TCP socket and acceptor, see tcp_script *)
 
 (* labels a free-running connection takes next (none when parked / blocked) *)
 Definition free_labels (c : Z) (k : conn) : list label :=
@@ -480,9 +481,27 @@ Definition rt_script (k : Z) : list op :=
   ++ (if Z.odd k then [OSend 1 (PData 100)] else [])
   ++ [ODrain; OTick 20000; OHeartbeat 1; ORelease 1; ODrain].
 
+(* OTcp v k: one connection accepted by the real TCPAcceptor through pomelo.StartAcceptor,
+   read by the real tcpPlayerConn.GetNextMessage, nothing held: handshake, ack, k messages,
+   then end cause v: 0 client close, 1 illegal header, 2 truncated frame + close, 3 kick,
+   4 undecodable message, 5 (instead of all that) a handshake with bad JSON. *)
+Definition tcp_script (v k : Z) : list op :=
+  if Z.eqb v 5 then [OConnect 1; OSend 1 PHandshakeBad; ORelease 1; ODrain]
+  else
+    [OConnect 1; OSend 1 PHandshake; ORelease 1; OSend 1 PAck; ORelease 1]
+    ++ flat_map (fun m => [OSend 1 (PData m); ORelease 1]) (map Z.of_nat (seq 1 (Z.to_nat (Z.min k 20))))
+    ++ [ODrain]
+    ++ (if Z.eqb v 0 then [OClientClose 1; ORelease 1]
+        else if Z.eqb v 1 then [OSend 1 PBadType; ORelease 1]
+        else if Z.eqb v 2 then [OSend 1 PTruncEof; ORelease 1]
+        else if Z.eqb v 3 then [OKick 1]
+        else [OSend 1 PDataBad; ORelease 1])
+    ++ [ODrain].
+
 Definition exec_op (s : st) (o : op) : st :=
   match o with
   | ORealTicker k => fold_left exec_op1 (rt_script k) s
+  | OTcp v k => fold_left exec_op1 (tcp_script v k) s
   | _ => exec_op1 s o
   end.
 
@@ -519,7 +538,7 @@ Definition fin_of (s : st) (c : Z) : cfin :=
   end.
 
 Definition expand (ops : list op) : list op :=
-  flat_map (fun o => match o with ORealTicker k => rt_script k | _ => [o] end) ops.
+  flat_map (fun o => match o with ORealTicker k => rt_script k | OTcp v k => tcp_script v k | _ => [o] end) ops.
 
 Definition obs_of (ops : list op) (s : st) : obs :=
   Obs (f_hlog (fr s)) (map (fin_of s) (order_of (expand ops) []))
